@@ -20,7 +20,9 @@ import (
 	"context"
 	"fmt"
 	"os"
+	"os/exec"
 	"runtime"
+	"strings"
 	"sync"
 	"sync/atomic"
 	"time"
@@ -275,6 +277,26 @@ func run(c *rig.Ctx) {
 
 	// B: stopping
 	c.Part("stop", c.N(36, 400), func(i int64, r *rig.Rng) {
+		if os.Getenv("C26_CHILD") == "" && i%3 == 1 && (i/3)%3 != 2 {
+			// the same case once more in a process of its own that has a single processor to run
+			// on (GOMAXPROCS=1): a cancel issued from the emulator's own goroutine must stop the
+			// loop without any help from other goroutines getting processor time
+			// (the plain build, not the race-detector one: its frames are fast enough for several
+			// to pass between two forced preemptions)
+			cmd := exec.Command(strings.TrimSuffix(os.Args[0], "-race"), "case", fmt.Sprintf("stop:%d", i), "--tier", c.Tier, "--seed", fmt.Sprint(c.Seed))
+			cmd.Env = append(os.Environ(), "C26_CHILD=1", "GOMAXPROCS=1")
+			out, _ := cmd.CombinedOutput()
+			c.Count("stop_cases_repeated_on_one_processor", 1)
+			for _, ln := range strings.Split(string(out), "\n") {
+				if strings.Contains(ln, "violation class=") {
+					c.Violate("stop-on-one-processor", fmt.Sprintf("stop case %d repeated in a process with GOMAXPROCS=1: %s", i, strings.TrimSpace(ln)), nil)
+					return
+				}
+			}
+		}
+		if os.Getenv("C26_CHILD") != "" {
+			defer runtime.GOMAXPROCS(runtime.GOMAXPROCS(1))
+		}
 		p := prog.Sound(r)
 		lcdOff := (i/3)%2 == 1
 		if lcdOff {
